@@ -292,7 +292,7 @@ Definition sealed_le (ids mins : list id) (lid : Z) (x : id) : bool :=
 
 (* ------------------------------------------------------------------ fractions, search *)
 (* ids of a fraction: the table WITHOUT the stub, descending *)
-Record fraction := { f_info : info; f_ids : list id }.
+Record fraction := { f_sealed : bool; f_info : info; f_ids : list id }.
 
 Definition in_range (from to : Z) (x : id) : bool := (from <=? fst x) && (fst x <=? to).
 
@@ -300,9 +300,15 @@ Definition in_range (from to : Z) (x : id) : bool := (from <=? fst x) && (fst x 
 Definition slice (ids : list id) (lo hi : Z) : list id :=
   firstn (Z.to_nat (hi + 1 - lo)) (skipn (Z.to_nat (lo - 1)) ids).
 
+(* the IDs index IndexSearch receives: sealed fractions compare through the block minima written
+   by the sealer, active ones compare directly *)
+Definition frac_le (f : fraction) : Z -> id -> bool :=
+  let tbl := stub_id :: f_ids f in
+  if f_sealed f then sealed_le tbl (min_block_ids tbl) else plain_le tbl.
+
 Definition frac_scan (f : fraction) (from to : Z) : option (list id) :=
   let tbl := stub_id :: f_ids f in
-  match lids_borders (plain_le tbl) (Z.of_nat (length tbl)) from to with
+  match lids_borders (frac_le f) (Z.of_nat (length tbl)) from to with
   | None => None
   | Some (lo, hi) => Some (slice (f_ids f) lo hi)
   end.
